@@ -1,5 +1,5 @@
 (* Model driver for the zsh area (C16/C17): the byte-exact model of clap_complete's zsh generator.
-   (aot zsh BIN (cmd NAME item...))   -> (script x<hex>) | PANIC | OUTOFFUEL        (spec format of the aot area, no texts)
+   (aot zsh BIN (cmd NAME item...))   -> (script x<hex>) | PANIC | OUTOFFUEL        (spec format of the aot area + (help x..) / (about x..) / (cx xID ..))
    (script zsh (cmd NAME item...))    -> (adv x<hex>) (inn x<hex>) (nodq x<hex>)     (spec format of the aottext area)
    any other shell                     -> other-shell *)
 open Conv
@@ -18,11 +18,13 @@ let hint_of = function
   | "EmailAddress" -> AotTree.HEmailAddress
   | h -> failwith ("unknown hint " ^ h)
 
-let build_arg (items : Sx.t list) : AotTree.arg =
+(* an argument of the aot spec: the tree part, its texts ((help x..)), its blacklist ((cx xID ...) = conflicts_with_all) *)
+let build_arg (items : Sx.t list) : AotTree.arg * FishModel.adesc * BinNums.coq_N list list =
   let id = bytes_of (Stdlib.List.hd items) in
   let short = ref None and long = ref None and sa = ref [] and la = ref [] in
   let act = ref AotTree.ASet and num = ref None and pvs = ref [] and has_pvs = ref false in
   let hint = ref None and glob = ref false and hide = ref false and req = ref false in
+  let help = ref None and cx = ref [] in
   Stdlib.List.iter (fun it ->
     let l = Sx.args it in
     match Sx.head it with
@@ -45,17 +47,26 @@ let build_arg (items : Sx.t list) : AotTree.arg =
     | "global" -> glob := true
     | "hide" -> hide := true
     | "required" -> req := true
+    | "cx" -> cx := !cx @ Stdlib.List.map bytes_of l       (* conflicts_with_all: ids in the order given *)
+    | "help" -> help := Some (bytes_of (Stdlib.List.hd l))
     | h -> failwith ("unknown arg item " ^ h)) (Stdlib.List.tl items);
-  { AotTree.a_id = id; a_short = !short; a_long = !long;
-    a_short_aliases = Stdlib.List.rev !sa; a_aliases = Stdlib.List.rev !la;
-    a_action = !act; a_num = !num;
-    a_pvs = (if !has_pvs then Some (Stdlib.List.rev !pvs) else None);
-    a_hint = !hint; a_global = !glob; a_hide = !hide; a_required = !req }
+  ({ AotTree.a_id = id; a_short = !short; a_long = !long;
+     a_short_aliases = Stdlib.List.rev !sa; a_aliases = Stdlib.List.rev !la;
+     a_action = !act; a_num = !num;
+     a_pvs = (if !has_pvs then Some (Stdlib.List.rev !pvs) else None);
+     a_hint = !hint; a_global = !glob; a_hide = !hide; a_required = !req },
+   { FishModel.ad_help = !help; ad_long = false; ad_pvh = [] },
+   !cx)
 
-let rec build_cmd (items : Sx.t list) : AotTree.cmd =
+(* the blacklist table of a spec: per command (keyed by the bin name [_build_bin_names_internal] will give it) the
+   bin name of its parent and, per argument id, (is it global, its blacklist) *)
+type conf_node = { parent : BinNums.coq_N list option; cargs : (BinNums.coq_N list * (bool * BinNums.coq_N list list)) list }
+let conf_table : (BinNums.coq_N list, conf_node) Hashtbl.t = Hashtbl.create 16
+
+let rec build_cmd (self_bin : BinNums.coq_N list) (parent_bin : BinNums.coq_N list option) (items : Sx.t list) : AotTree.cmd * FishModel.cdesc =
   let name = bytes_of (Stdlib.List.hd items) in
   let al = ref [] and args = ref [] and subs = ref [] and hide = ref false and version = ref false in
-  let dhf = ref false and dvf = ref false and dhs = ref false and pver = ref false in
+  let dhf = ref false and dvf = ref false and dhs = ref false and pver = ref false and about = ref None in
   Stdlib.List.iter (fun it ->
     let l = Sx.args it in
     match Sx.head it with
@@ -67,23 +78,52 @@ let rec build_cmd (items : Sx.t list) : AotTree.cmd =
     | "no-help-flag" -> dhf := true
     | "no-version-flag" -> dvf := true
     | "no-help-sub" -> dhs := true
+    | "about" -> about := Some (bytes_of (Stdlib.List.hd l))
     | "arg" -> args := build_arg l :: !args
-    | "cmd" -> subs := build_cmd l :: !subs
+    | "cmd" ->
+      let sub_name = bytes_of (Stdlib.List.hd l) in
+      let sub_bin = self_bin @ (if self_bin = [] then [] else bytes_of_string " ") @ sub_name in
+      subs := build_cmd sub_bin (Some self_bin) l :: !subs
     | h -> failwith ("unknown cmd item " ^ h)) (Stdlib.List.tl items);
+  let args = Stdlib.List.rev !args and subs = Stdlib.List.rev !subs in
+  if not (Hashtbl.mem conf_table self_bin) then
+    Hashtbl.add conf_table self_bin
+      { parent = parent_bin;
+        cargs = Stdlib.List.map (fun (a, _, cx) -> (a.AotTree.a_id, (a.AotTree.a_global, cx))) args };
   let st = { AotTree.s_dhf = !dhf; s_dvf = !dvf; s_dhs = !dhs; s_pver = !pver } in
-  { AotTree.c_name = name; c_aliases = Stdlib.List.rev !al; c_args = Stdlib.List.rev !args;
-    c_subs = Stdlib.List.rev !subs; c_bin = None; c_hide = !hide; c_version = !version;
-    c_set = st; c_gset = st }
+  ({ AotTree.c_name = name; c_aliases = Stdlib.List.rev !al; c_args = Stdlib.List.map (fun (a, _, _) -> a) args;
+     c_subs = Stdlib.List.map fst subs; c_bin = None; c_hide = !hide; c_version = !version;
+     c_set = st; c_gset = st },
+   { FishModel.cd_about = !about; cd_long = false; cd_args = Stdlib.List.map (fun (_, d, _) -> d) args;
+     cd_subs = Stdlib.List.map snd subs })
+
+(* [Arg::blacklist] of the argument [a] of the built command [c]: the entry of the command itself, or -- for a global
+   argument that [_propagate_global_args] copied down -- of the nearest ancestor that declares it *)
+let blacklist (c : AotTree.cmd) (a : AotTree.arg) : BinNums.coq_N list list =
+  let id = a.AotTree.a_id in
+  let rec up (bin : BinNums.coq_N list) (self : bool) =
+    match Hashtbl.find_opt conf_table bin with
+    | None -> []
+    | Some n ->
+      (match Stdlib.List.assoc_opt id n.cargs with
+       | Some (glob, cx) -> if self || glob then cx else []
+       | None -> (match n.parent with Some p -> up p false | None -> []))
+  in
+  match c.AotTree.c_bin with Some b -> up b true | None -> []
+
+let no_blacklist (_ : AotTree.cmd) (_ : AotTree.arg) : BinNums.coq_N list list = []
 
 let run_aot (a : Sx.t list) : string =
   match a with
   | shell :: bin :: spec :: _ ->
     if Sx.sym shell <> "zsh" then "other-shell" else
-    let c = build_cmd (Sx.args spec) and bin = bytes_of bin in
+    let bin = bytes_of bin in
+    Hashtbl.reset conf_table;
+    let (c, d) = build_cmd bin None (Sx.args spec) in
     (match AotTree.build (AotTree.set_bin_name c bin) with
      | None -> "OUTOFFUEL"
      | Some _ ->
-       (match ZshModel.generate_zsh c FishModel.cd0 bin with
+       (match ZshModel.generate_zsh blacklist c d bin with
         | Some s -> "(script " ^ hex s ^ ")"
         | None -> "PANIC"))
   | _ -> "badcase"
@@ -192,7 +232,7 @@ let run_script (a : Sx.t list) : string =
     if Sx.sym shell <> "zsh" then "other-shell" else
     let (c, d) = build_cmd2 spec in
     let bin = c.AotTree.c_name in
-    let gen d = match ZshModel.generate_zsh c d bin with Some s -> hex s | None -> "PANIC" in
+    let gen d = match ZshModel.generate_zsh no_blacklist c d bin with Some s -> hex s | None -> "PANIC" in
     "(adv " ^ gen d ^ ") (inn " ^ gen (FishModel.innocuous_desc d) ^ ") (nodq " ^ gen (nodq_desc d) ^ ")"
   | _ -> "badcase"
 
